@@ -7,8 +7,11 @@ import subprocess
 ROOT = os.path.dirname(os.path.abspath(__file__))
 SRC = os.path.join(ROOT, "build", "native-src")
 TARGET = os.path.join(ROOT, "build", "native-target")
-ORACLES = {"c14_jet_codes_replay": "jets_native.rs", "c16_policy_sort_replay": "policy_native.rs", "c02_codec_replay": "codec_native.rs", "c09_cmr_replay": "cmr_native.rs", "c19_budget_replay": "budget_native.rs", "c11_value_order_replay": "value_native.rs", "c18_dag_replay": "dag_native.rs"}
+ORACLES = {"c14_jet_codes_replay": "jets_native.rs", "c16_policy_sort_replay": "policy_native.rs", "c02_codec_replay": "codec_native.rs", "c09_cmr_replay": "cmr_native.rs", "c19_budget_replay": "budget_native.rs", "c11_value_order_replay": "value_native.rs", "c18_dag_replay": "dag_native.rs", "c05_machine_semantics_replay": "machine_native.rs", "c13_natural_replay": "natural_native.rs"}
 
+
+# oracles that need the library's debug assertions (built in the dev profile)
+DEBUG_PROFILE = {"c05_machine_semantics_replay"}
 
 BOUNDS = {
     "c02_codec_replay": "every byte string of <= 3 bytes and 1..40 0xff bytes + 2-byte tails as program (commit-time, expression and redeem-time decoders, Core jets; witnesses of <= 1 byte); "
@@ -16,6 +19,8 @@ BOUNDS = {
                         "round-tripped with every decoded witness checked against its node's target type",
     "c14_jet_codes_replay": "all 1267 jets, three continuations each; all 24-bit inputs per family",
     "c16_policy_sort_replay": "all policies of nesting depth <= 2 over After(1..3) leaves (and/or/threshold)",
+    "c05_machine_semantics_replay": "jet-free programs: every combinator over word/iden/unit leaves to depth 2, composed pairwise (comp) and under a word-selected case; up to 4 input values each; debug assertions on",
+    "c13_natural_replay": "numbers 1..=70000 and 2^p-2..2^p+2 for p <= 31 (encode, decode, bound); every 24-bit string (decode, re-encode)",
     "c18_dag_replay": "comp/pair DAGs of depth <= 3 over unit with every reuse/copy choice among the first 6 sub-DAGs per level, as commitment-time programs",
     "c11_value_order_replay": "about 2000 values of widths <= 24 bits built by constructors, by decoding padded / compact bits and by sub-value extraction (depth <= 3): all pairs for eq/cmp/hash; encode/decode, accessor/constructor inverses, products of extracted parts, pruning to unit-left and to the own type",
     "c19_budget_replay": "stacks of {0,1,2,5,251..254,300,65535,65536} items of {0,1,2,252,253,254} bytes; weights at budget-2 .. budget+65537",
@@ -42,7 +47,7 @@ def run(test, repo, timeout=3000):
     env = dict(os.environ)
     env["CARGO_TARGET_DIR"] = TARGET
     env["CARGO_NET_OFFLINE"] = "true"
-    cmd = ["cargo", "test", "--offline", "--release", "--lib", test, "--", "--nocapture", "--test-threads", "1"]
+    cmd = ["cargo", "test", "--offline"] + ([] if test in DEBUG_PROFILE else ["--release"]) + ["--lib", test, "--", "--nocapture", "--test-threads", "1"]
     try:
         p = subprocess.run(cmd, cwd=SRC, env=env, capture_output=True, text=True, timeout=timeout)
     except subprocess.TimeoutExpired:
